@@ -109,7 +109,11 @@ class FakeSnowflakeCursor:
 
         describe = f"DESCRIBE {command}"
         self.execute(describe, *args, **kwargs)
-        return describe_as_result_metadata(self.fetchall())
+        rows = self.fetchall()
+        if self._use_dict_result:
+            # the columns of a DESCRIBE result have distinct names, so their order is the dict order
+            rows = [tuple(r.values()) for r in rows]  # pyright: ignore[reportAttributeAccessIssue]
+        return describe_as_result_metadata(rows)
 
     @property
     def description(self) -> list[ResultMetadata]:
